@@ -8,7 +8,9 @@ import YarlProofs.C07
 Continued in C17HeadlineMore.lean (theorems that need modules which import this file): explicit_port of
 constructor results for every accepted input, sentence 2 on URLs WITH a pre-filled cache / on constructor and
 `build` results / under the invariant `NetlocCanon`, and the general rejection of bad port texts (C17Ctor.lean,
-C11Ctor.lean, C03Netloc.lean).
+C11Ctor.lean, C03Netloc.lean).  Continued further in C17HeadlineMore3.lean (the `encoded=True` family: explicit_port,
+`build(port=…, encoded=True)`, with_port and str() on stored authorities that are arbitrary text; C07Encoded.lean,
+C06Encoded.lean, C11Encoded.lean, C11ReachE.lean; GAPS 3, 4, 6 below).
 
 Property statement (verbatim):
 
@@ -233,18 +235,59 @@ GAPS:
     answer the two requests `build` makes first — `scheme.lower()` (fix e21485a) and the NFKC screen of a non-ASCII
     authority (fix c2c2803); ASCII scheme and ASCII authority need no oracle.  Without an oracle answer the model
     stops with `oracleMiss` (model artefact): C17_headline_build_rejects_bad_port_fails_for_oracle_miss.  With
-    `encoded=True` nothing is checked at build time (known finding F-C19-encoded-str; instance in
-    C17_headline_rejects_bad_port_instances); that is item 6.
+    `encoded=True` the authority TEXT is not checked at build time (known finding F-C19-encoded-str; instance in
+    C17_headline_rejects_bad_port_instances); that is item 6.  SHARPENED by C07_build_encoded_raises,
+    C07_build_encoded_verbatim, C07_encBuildNetloc_shape, C07_build_encoded_accessors (C07Encoded.lean) and
+    C07_preencoded_accessors (C07More.lean), see C17_headline_encoded_build_port, C17_headline_encoded_explicit_port,
+    C17_headline_encoded_build_port_instances (C17HeadlineMore3.lean): "nothing is checked" was too strong — the
+    ARGUMENT checks of `build` do not depend on `encoded` (`port=` of a wrong type, out of range, without `host=`, mixed
+    with `authority=` still raise: C17_headline_build_port_rejects holds for every `a`); what is not checked is the
+    port TEXT inside `authority=` / after a `host=` text containing ':' and the host text.  On EVERY result of
+    URL(s, encoded=True) / build(encoded=True), explicit_port is `C07_portOf` of the port text of the stored authority:
+    `None` for an empty port text, the integer when `int()` gives one in 0–65535, and it RAISES ValueError (or asks
+    the oracle) otherwise — the rejection happens at the first accessor instead of at construction.
  4. "only when none is written": C17_headline_port_fallback is an equation for `port`; note that
     build(port = the default of the LOWER-CASED scheme; fix e21485a: `build(scheme="HTTP", port=80)` too) DROPS
     the port (C17_headline_build_port; for the `authority=` route as well: C17_headline_build_port_views,
     C17HeadlineMore.lean — a `build(encoded=False)` result never stores the default port of its scheme), so
     `explicit_port` is None although a port was supplied — consistent with the property only if "written" means
     "stored".  The constructor does NOT drop it (C17_headline_ctor_port_views: explicit_port reports a default
-    port, str() omits it).
+    port, str() omits it).  NEW (C07_encBuildNetloc_shape, C07Encoded.lean, see C17_headline_encoded_build_port,
+    C17HeadlineMore3.lean): `build(…, encoded=True)` drops `port=` iff it equals the default of the scheme AS GIVEN — the
+    scheme is NOT lower-cased in this mode, so `build(scheme="HTTP", host="h", port=80, encoded=True)` KEEPS ":80"
+    (explicit_port 80) while the same call with encoded=False drops it (instance:
+    C17_headline_encoded_build_port_instances); a port written inside `authority=` is stored verbatim in this mode.
  5. is_default_port for a scheme without default and an explicit port: `some p = none` is false —
     stated; for an absent port and a scheme WITHOUT default it returns True (absent), as the code does.
- 6. with_port on authorities not in `Written` form (encoded=True oddities): only the rejection half.
+ 6. with_port on authorities not in `Written` form (encoded=True oddities): WAS "only the rejection half".
+    PARTLY CLOSED by C11_arbitrary_authority_accessors, C11_arbitrary_authority_modifiers,
+    C11_arbitrary_authority_frame_with_port, C11_arbitrary_authority_split_fails (C11Encoded.lean),
+    C11_reachE_authority_frame, C11_reachE_split_fails (C11ReachE.lean), C06_encoded_str (C06Encoded.lean), see
+    C17_headline_arbitrary_authority_explicit_port, C17_headline_with_port_arbitrary_authority,
+    C17_headline_with_port_split_fails, C17_headline_reachE_with_port, C17_headline_encoded_str_omits_default,
+    C17_headline_with_port_arbitrary_authority_instances (C17HeadlineMore3.lean).
+    Proved, for a URL WITHOUT pre-filled cache (every URL(s, encoded=True) / build / modifier result) whose non-empty
+    stored authority is ANY text: (a) if `split_netloc` accepts it (answer `np`): explicit_port is `np.port` = `int()` of
+    the port text, in 0–65535 (`None` without port text), is_default_port() as the property says; `with_port` has an
+    EXACT result for every argument — TypeError for bool / non-int, ValueError out of range, else the URL whose
+    authority is re-made by `make_netloc(…, encode=False)` from `np` with the new port (so non-canonical text is silently
+    normalised: "080" becomes "80", junk around brackets is dropped); and when the host text is not of the shape (E1)
+    "contains '[' but no ':'", explicit_port of the result reads back the new port / `None`, raw_user and raw_password
+    read as before, raw_host too unless nothing is left to write (E2: no user, no password, empty host, no port — the
+    stored authority becomes EMPTY and raw_host reads `None`); the same over `ReachE` (closure of all entry points
+    incl. encoded=True; a constructor result with cache needs `GoodAuthority`).  (b) if `split_netloc` rejects it:
+    `with_port` fails for every argument (TypeError / ValueError of the argument, else the ValueError / oracle request
+    of the stored text) and str() raises that error.  (c) str() of a URL(s, encoded=True) / build(encoded=True) result
+    shows the stored authority verbatim unless a port equal to the scheme default is written, then the authority is
+    re-made without the port; it raises when explicit_port does.
+    (E1) is NEEDED for "with_port(p) sets any valid p": on `build(scheme="http", authority="[a[b]", path="/p",
+    encoded=True)` `with_port(81)` stores "a[b:81", whose explicit_port is `None` — FALSE there; this is a computed
+    `example` at the end of C17HeadlineMore3.lean (MODEL only: no theorem of a proof module states it and it is not a
+    probe row; the cited modules' own (E1) witness, C11_reachE_authority_frame_fails_for, is about with_user).
+    STILL OPEN: host_port_subcomponent on arbitrary stored text (only under `Written` / `NetlocCanon`); the read-back
+    under (E1) in general; that (E1) / (E2) authorities are stored ONLY through encoded=True is stated in the doc
+    comments of C11ReachE.lean (witnesses inside `ReachE`), not proved as a theorem; URLs WITH a pre-filled cache are
+    covered only through `ReachE` + `GoodAuthority` (constructor results) — see item 7.
  7. (new) Side conditions of the theorems that close 1(b).  `AuthInput` / `BuildNetOK` cover ASCII hosts of the
     supported kinds (name / IPv4 text, IPv6 literal with optional zone id; not IPvFuture, not a bracketed non-IPv6
     host, not an empty host); IDN hosts: `NetlocCanon` of the constructor result is C03_idn_netlocCanon_ctor
